@@ -237,10 +237,10 @@ def run(ctx):
                cex=None if not fails else dict(mask=dict(bias=fails[0][0][0], noise=fails[0][0][1], scale_misal=fails[0][0][2]), detail=fails[0][1], n_masks=len(fails)),
                native=None if not fails else _native_mask(py, fails[0][0]))
     ctx.notes.append(dict(masks=len(masks), per_mask_obligations=n_ob))
-    _walk_without_bias(ctx, py)
-    _undo(ctx, py)
-    _variances(ctx, py)
-    _apply_imu(ctx, py)
+    ctx.guard(_walk_without_bias, ctx, py)
+    ctx.guard(_undo, ctx, py)
+    ctx.guard(_variances, ctx, py)
+    ctx.guard(_apply_imu, ctx, py)
 
 
 def _native_mask(py, mask):
